@@ -257,9 +257,8 @@ Inductive op :=
 | Store (s : N) (set : option (list N)) (md : smode) (f_deleted f_recent : bool).
                                                      (* NOOP; UID STORE set +-FLAGS (..) *)
 
-(* the environment's choices: who any_selected returned, and whether a
-   command refused for a read-only selection (CLOSE, MOVE) was refused *)
-Record choice := mkChoice { c_pick : option N; c_alt : bool }.
+(* the environment's choice: who any_selected returned *)
+Record choice := mkChoice { c_pick : option N }.
 
 Inductive out :=
 | OBad                                  (* wrong connection state *)
@@ -416,21 +415,21 @@ Definition step (st : sys) (o : op) (ch : choice) : sys * out :=
     | RBox sl i b => let '(st', p) := do_sync s sl b st in (st', OOk p)
     end
   | Close s =>
-    match resolve st s with
-    | RBad => (st, OBad)
-    | RNo => match lookup s (sess st) with
-             | Some sl => if s_ro sl then
-                            if c_alt ch then (drop_sel s st, OOk PNone) else (st, ONo)
-                          else (st, ONo)
-             | None => (st, OBad)
-             end
-    | RStale => (st, OStaleCmd)
-    | RBox sl i b =>
-      if s_ro sl then
-        if c_alt ch then (drop_sel s st, OOk PNone) else (st, ONo)
+    (* do_close: deselect first; a read-write selection is then expunged,
+       which fails with NO when the remembered name is gone *)
+    match lookup s (sess st) with
+    | None => (st, OBad)
+    | Some sl =>
+      if s_ro sl then (drop_sel s st, OOk PNone)
       else
-        (drop_sel s (remove_msgs i (fun m => mem (m_uid m) (s_view sl) && m_deleted m) st),
-         OOk PNone)
+        match find_box st (s_name sl) with
+        | None => (drop_sel s st, ONo)
+        | Some (i, b) =>
+          if i =? s_bid sl then
+            (drop_sel s (remove_msgs i (fun m => mem (m_uid m) (s_view sl) && m_deleted m) st),
+             OOk PNone)
+          else (st, OStaleCmd)
+        end
     end
   | Expunge s set =>
     match resolve st s with
@@ -473,7 +472,7 @@ Definition step (st : sys) (o : op) (ch : choice) : sys * out :=
       match find_box st nm with
       | None => (st, ONo)
       | Some (j, _) =>
-        if s_ro sl && c_alt ch then (st, ONo)
+        if s_ro sl then (st, ONo)            (* MOVE out of a read-only selection *)
         else if pick_ok st s j (c_pick ch) then
           let us := filter (in_set set) (s_view sl) in
           let '(st1, ps) := copy_loop true i j (c_pick ch) us st in
